@@ -6,7 +6,7 @@ import vlib
 from vlib import coq_value, ji, js, jo, ja
 
 ID = "C05"
-THEOREMS = ["C05_format_number_padding_bounded", "C05_format_number_negative_scale_refuted", "C05_zip_terminates", "C05_zip_empty_refuted", "C05_example"]
+THEOREMS = ["C05_format_number_padding_bounded", "C05_format_number_negative_scale_former_hang", "C05_zip_terminates", "C05_zip_collect_diverges_without_arrays", "C05_zip_all_terminates", "C05_example"]
 IMPORTS = ("From Coq Require Import List ZArith NArith String.\nFrom VRL Require Import Base.Bytes Base.Value Base.Lit Model.Expr Model.EvalInst Model.StdSig Model.Fuel Corr.C03.\n"
            "Local Open Scope string_scope.")
 MANIFEST = {
@@ -50,7 +50,7 @@ def main(run, args):
     rng = run.rng
     zc, terms = [], []
     for _ in range(60 if quick else 600):
-        its = [[rng.choice([ji(1), js("a"), None, True]) for _ in range(rng.randint(0, 4))] for _ in range(rng.randint(1, 4))]
+        its = [[rng.choice([ji(1), js("a"), None, True]) for _ in range(rng.randint(0, 4))] for _ in range(rng.randint(0, 4))]
         zc.append(its)
     zouts = vlib.run_harness("stdfn", [{"op": "call", "src": "zip!(.p0)".encode().hex(), "event": jo([("p0", ja([ja(x) for x in its]))]), "fn": "zip"} for its in zc])
     for its, o in zip(zc, zouts):
